@@ -1,3 +1,4 @@
+import DSV.FactsOK.SrcC11
 import DSV.Generated.Facts
 /-! C11 — partial-operation inventory of package `llo` as extracted from the working tree. -/
 namespace DSV.Props.C11.Facts
